@@ -84,6 +84,7 @@ def mk_websocket(I: Interp, run: Run, skip=None, fire=None, **ctor) -> Ref:
     """Build a WebSocket by interpreting the repo's own constructor."""
     kwargs = dict(ctor)
     kwargs["skip_utf8_validation"] = skip if skip is not None else Sym("skip", "bool")
+    run.memo["@cfg_skip"] = kwargs["skip_utf8_validation"]
     kwargs["fire_cont_frame"] = fire if fire is not None else FALSE
     ws = I.call(run, Cls("_core:WebSocket"), [], kwargs, None)
     if not isinstance(ws, Ref):
@@ -137,7 +138,9 @@ def frame_dims(I: Interp, out: Outcome, skip: Value = None) -> Optional[Dict[str
     dims["len"] = dim_of(run, ln, (0, LEN_MAX))
     dims["code"] = dim_of(run, transfer.be16_of(run, data), (0, 65535))
     dims["utf8ok"] = dim_of(run, Sym("utf8ok", "bool"), (0, 1))
-    dims["skip"] = dim_of(run, skip if skip is not None else C(0), (0, 1))
+    # the *configured* option (what the user asked for), not what happens to be handed to validate()
+    cfgskip = run.memo.get("@cfg_skip")
+    dims["skip"] = dim_of(run, cfgskip if cfgskip is not None else (skip if skip is not None else C(0)), (0, 1))
     return dims
 
 
